@@ -552,7 +552,12 @@ func concurrent(c *vk.Ctx, tg target, ds *obsDS, cfg string, stores []string, in
 				if ws[i].Return < ws[j].Call {
 					c.Count("id_order_pairs_checked", 1)
 					if !(ws[i].ID < ws[j].ID) {
-						c.Violation("C17-identifier-not-increasing", "id-order-conc",
+						fid := "C17-identifier-not-increasing"
+						if len(ws[i].ID) == 26 && len(ws[j].ID) == 26 && ws[i].ID[:10] == ws[j].ID[:10] {
+							// same millisecond (the 48-bit time part of the two ULIDs is equal): listed finding
+							fid = "C17-identifier-order-within-one-millisecond"
+						}
+						c.Violation(fid, "id-order-conc",
 							fmt.Sprintf("write returning %s completed before the write returning %s started, but its id is not smaller", ws[i].ID, ws[j].ID), map[string]any{"config": cfg, "writes": []op{ws[i], ws[j]}})
 					}
 				}
